@@ -203,6 +203,7 @@ class Interp:
         self.on_yield = None        # hook(interp, value) for generators
         self.guide = None           # evaluator(term) for lazy enumeration
         self.pure_methods = set()   # method names kept as pure terms
+        self.rebind_methods = {}    # name -> f(interp, base term, args)
         self.ret_types = {'unicodedata.normalize': 'str', 're.sub': 'str',
                           're.Pattern.sub': 'str',
                           'encodings.normalize_encoding': 'str',
@@ -1234,6 +1235,19 @@ class Interp:
                 self.types[new] = 'list'
                 fr.env[e.func.value.id] = new
                 return K(None)
+        if isinstance(e.func, ast.Attribute) and \
+                e.func.attr in self.rebind_methods and \
+                isinstance(e.func.value, ast.Name) and \
+                e.func.value.id in fr.env and \
+                isinstance(fr.env[e.func.value.id], T):
+            # a builder-style method that configures its receiver in place
+            # (x.setParseAction(f)): the receiver name is rebound to the
+            # configured term
+            base = fr.env[e.func.value.id]
+            margs = [self.eval(a, fr) for a in e.args]
+            new = self.rebind_methods[e.func.attr](self, base, margs)
+            fr.env[e.func.value.id] = new
+            return new
         f = self.eval(e.func, fr)
         args = []
         for a in e.args:
